@@ -3,6 +3,7 @@
 -/
 import PyctrModel.Fmt.Lzss
 import PyctrModel.Fmt.Romfs
+import Proofs.BytesLemmas
 namespace Pyctr
 namespace Lzss
 
@@ -79,6 +80,15 @@ end Lzss
 namespace Romfs
 
 def Bnd (e : Env) (c : Counters) : Prop := c.dirs ≤ e.maxDirs ∧ c.files ≤ e.maxFiles
+
+/-- the visit caps the constructor uses are bounded by the length of the file it was given, whatever sizes the header claims -/
+theorem mkEnv_caps (lower : Str → Str) (ci : Bool) (file : Bytes) (base dmo dms fmo fms : Nat) :
+    (mkEnv lower ci file base dmo dms fmo fms).maxDirs * 0x18 ≤ file.length ∧
+    (mkEnv lower ci file base dmo dms fmo fms).maxFiles * 0x20 ≤ file.length := by
+  simp only [mkEnv, slice_length]
+  have h1 := Nat.div_mul_le_self (min dms (file.length - (base + dmo))) 0x18
+  have h2 := Nat.div_mul_le_self (min fms (file.length - (base + fmo))) 0x20
+  constructor <;> omega
 
 /-- the walk never visits more directory entries than the directory table can hold, nor more file entries than the file table
     can hold: links that revisit an entry run into the counter and are reported, they are not followed forever -/
